@@ -3,6 +3,7 @@
 package core
 
 import (
+	"sync"
 	"fmt"
 	"go/ast"
 	"go/token"
@@ -261,7 +262,9 @@ func build(dir string, pkgs []*packages.Package) (*Prog, error) {
 	if ref := LoadRef(); ref != nil {
 		for tf := range newFuncs(ref, pkgs) {
 			if sf := prog.FuncValue(tf); sf != nil {
+				unknownFuncsMu.Lock()
 				unknownFuncs[sf] = true
+				unknownFuncsMu.Unlock()
 			}
 		}
 	}
@@ -467,7 +470,34 @@ func (p *Prog) InModule(fn *ssa.Function) bool {
 
 // unknownFuncs: functions of the loaded programs that the reference table of the pinned tree does not have
 // (after normalisation: those that could not be inlined).
-var unknownFuncs = map[*ssa.Function]bool{}
+var (
+	unknownFuncs   = map[*ssa.Function]bool{}
+	unknownFuncsMu sync.RWMutex
+)
+
+// ForgetProgram removes a program's functions from the process-wide tables.
+func ForgetProgram(p *Prog) {
+	if p == nil {
+		return
+	}
+	unknownFuncsMu.Lock()
+	for _, f := range p.Funcs {
+		delete(unknownFuncs, f)
+	}
+	unknownFuncsMu.Unlock()
+}
+
+func hasUnknownFuncs() bool {
+	unknownFuncsMu.RLock()
+	defer unknownFuncsMu.RUnlock()
+	return len(unknownFuncs) > 0
+}
+
+func isUnknownFunc(f *ssa.Function) bool {
+	unknownFuncsMu.RLock()
+	defer unknownFuncsMu.RUnlock()
+	return unknownFuncs[f]
+}
 
 // FuncsIn returns fn and all anonymous functions nested in it.
 func FuncsIn(fn *ssa.Function) []*ssa.Function {
@@ -485,16 +515,16 @@ func FuncsIn(fn *ssa.Function) []*ssa.Function {
 		}
 		// functions the pinned tree does not have and that could not be inlined (recursive ...) belong to
 		// the function that calls them
-		if len(unknownFuncs) > 0 {
+		if hasUnknownFuncs() {
 			for _, b := range f.Blocks {
 				for _, in := range b.Instrs {
 					if ci, ok := in.(ssa.CallInstruction); ok {
-						if g := ci.Common().StaticCallee(); g != nil && unknownFuncs[g] && g.Blocks != nil {
+						if g := ci.Common().StaticCallee(); g != nil && isUnknownFunc(g) && g.Blocks != nil {
 							rec(g)
 						}
 					}
 					if mc, ok := in.(*ssa.MakeClosure); ok {
-						if g, ok := mc.Fn.(*ssa.Function); ok && unknownFuncs[g] {
+						if g, ok := mc.Fn.(*ssa.Function); ok && isUnknownFunc(g) {
 							rec(g)
 						}
 					}
